@@ -68,6 +68,9 @@ fn check_input(acc: &mut Acc, sub: &str, rank: u64, input: &[u8], elisp: bool, c
                 acc.nontrivial += 1;
                 if let Some(bad) = first_bad_str(&v, 0) {
                     acc.violation(sub, "ill-formed-str-returned", &format!("ill-formed-str-returned:{}", ctx_name), rank, w(src), format!("a str with the bytes {:?} is reachable from the returned value", show_bytes(&bad)), case);
+                    // nothing else may look at this value: it holds an ill-formed str
+                    std::mem::forget(v);
+                    continue;
                 }
                 // a string literal without escapes: the content is exactly the bytes, which must be valid
                 if plain_string_ctx {
